@@ -25,6 +25,8 @@ pub const POISON: i64 = -0x0DEAD_0DEAD;
 
 #[derive(Debug, Clone, Copy, PartialEq, Eq)]
 pub enum AllocEventKind {
+    /// an allocation was requested; the counter does not include it yet
+    Request,
     Alloc,
     Dealloc,
     Failed,
@@ -174,14 +176,27 @@ fn counters_of(a: &CaoLangAllocator) -> (usize, usize, usize) {
 }
 
 /// called for every allocation request, before the limit is checked; returns the sequence number
-pub(crate) fn alloc_request() -> u64 {
-    CTL.try_with(|c| {
-        let mut c = c.borrow_mut();
-        let s = c.alloc_seq;
-        c.alloc_seq += 1;
-        s
-    })
-    .unwrap_or(0)
+pub(crate) fn alloc_request(a: &CaoLangAllocator, l: std::alloc::Layout) -> u64 {
+    let seq = CTL
+        .try_with(|c| {
+            let mut c = c.borrow_mut();
+            let s = c.alloc_seq;
+            c.alloc_seq += 1;
+            s
+        })
+        .unwrap_or(0);
+    let (allocated, next_gc, limit) = counters_of(a);
+    emit(AllocEvent {
+        kind: AllocEventKind::Request,
+        seq,
+        ptr: 0,
+        size: l.size(),
+        align: l.align(),
+        allocated_after: allocated,
+        next_gc,
+        limit,
+    });
+    seq
 }
 
 /// should a collection be forced for request `seq`?
